@@ -29,7 +29,8 @@ def make_batches(sc):
     for b in sc['batches']:
         idx = pd.to_datetime([1_600_000_000 + t for t in b['t']], unit='s')
         x = [float('nan') if v is None else float(v) for v in b['x']]
-        df = pd.DataFrame({'x': np.array(x, dtype='float64'), 'name': pd.Series(b['name'], dtype='object')})
+        df = pd.DataFrame({'x': np.array(x, dtype='float64'), 'y': np.array(x, dtype='float64') * 2 + 1,
+                           'name': pd.Series(b['name'], dtype='object')})
         df.index = idx
         out.append(df)
     return out
@@ -39,32 +40,37 @@ def build(spec, stream, start, example_rows=0):
     import pandas as pd
     from streamz.dataframe import DataFrame
     from streamz.dataframe import aggregations as agg
-    example = pd.DataFrame({'x': pd.Series([], dtype='float64'), 'name': pd.Series([], dtype='object')})
+    example = pd.DataFrame({'x': pd.Series([], dtype='float64'), 'y': pd.Series([], dtype='float64'),
+                            'name': pd.Series([], dtype='object')})
     example.index = pd.to_datetime([])
     if example_rows:
         # the usual way to declare a streaming dataframe: a few representative rows
-        example = pd.DataFrame({'x': [1.0, 2.0, 3.0][:example_rows], 'name': pd.Series(['a', 'b', 'a'][:example_rows], dtype='object')})
+        example = pd.DataFrame({'x': [1.0, 2.0, 3.0][:example_rows], 'y': [3.0, 5.0, 7.0][:example_rows],
+                                'name': pd.Series(['a', 'b', 'a'][:example_rows], dtype='object')})
         example.index = pd.to_datetime([1_700_000_000 + i for i in range(example_rows)], unit="s")   # (later than any data: time-indexed aggregations need a monotonic index when the example is pushed through the start state)
     sdf = DataFrame(stream, example=example)
     k = spec['kind']
     op = spec.get('op')
+    frame = spec.get('frame', False)          # aggregate a two-column frame instead of one column
+    col = (lambda o: o[['x', 'y']]) if frame else (lambda o: o.x)
     if k == 'red':
         if op in ('sum', 'count'):
-            return getattr(sdf.x, op)(start=start), False
+            return getattr(col(sdf), op)(start=start), False
         A = {'mean': agg.Mean, 'var': agg.Var}[op]()
         # (example given: accumulate_partitions would otherwise hand with_state to the accumulator)
-        return sdf.x.accumulate_partitions(agg.accumulator, agg=A, start=start, stream_type='updating',
-                                           returns_state=True, with_state=True, example=(None, 0.0)), True
+        ex = (None, pd.Series({'x': 0.0, 'y': 0.0})) if frame else (None, 0.0)
+        return col(sdf).accumulate_partitions(agg.accumulator, agg=A, start=start, stream_type='updating',
+                                           returns_state=True, with_state=True, example=ex), True
     if k == 'gb':
         g = sdf.groupby('name').x
         if op in ('sum', 'count'):
             return getattr(g, op)(start=start), False
         return g.mean(with_state=True, start=start), True
     if k == 'rolling':
-        r = sdf.rolling(spec['window'], with_state=True, start=() if start is None else start).x
+        r = col(sdf.rolling(spec['window'], with_state=True, start=() if start is None else start))
         return getattr(r, op)(), True
     if k == 'window':
-        w = sdf.window(n=spec.get('n'), value=spec.get('value'), with_state=True, start=start).x
+        w = col(sdf.window(n=spec.get('n'), value=spec.get('value'), with_state=True, start=start))
         if op == 'size':
             return w.size, True
         return getattr(w, op)(), True
@@ -72,10 +78,10 @@ def build(spec, stream, start, example_rows=0):
         w = sdf.window(n=spec.get('n'), value=spec.get('value'), with_state=True, start=start).groupby('name').x
         return getattr(w, op)(), True
     if k == 'expanding':
-        w = sdf.expanding(with_state=True, start=start).x
+        w = col(sdf.expanding(with_state=True, start=start))
         return getattr(w, op)(), True
     if k == 'ewm':
-        return sdf.ewm(com=spec['com'], with_state=True, start=start).x.mean(), True
+        return col(sdf.ewm(com=spec['com'], with_state=True, start=start)).mean(), True
     raise ValueError(k)
 
 
@@ -226,6 +232,8 @@ def evaluate(prop, sc, want_trace=False):
     if any(v is None for b in sc['batches'] for v in b['x']):
         out.probes['nan'] = 1
     out.probes['agg:' + spec['kind']] = 1
+    if spec.get('frame'):
+        out.probes['frame_level'] = 1
     if ex_rows:
         out.probes['non_empty_example'] = 1
     if by_ref:
@@ -259,6 +267,8 @@ def generate(prop, rng, seed, index, tier):
             spec['value'] = rng.choice(['2s', '5s', '10s'])
     if kind == 'ewm':
         spec['com'] = rng.choice([0.5, 1, 2, 5])
+    if kind in ('red', 'rolling', 'window', 'expanding', 'ewm') and spec.get('op') != 'size' and rng.random() < 0.35:
+        spec['frame'] = True
     nb = rng.randrange(2, 9 if big else 7)
     t = 0
     batches = []
